@@ -53,6 +53,9 @@ func access(p unsafe.Pointer, name string, write bool, atomic bool) {
 		return
 	}
 	t := s.cur
+	if onOwnStack(p) {
+		return // private to this goroutine, and the address will be somebody else's later
+	}
 	if s.shadow == nil {
 		s.shadow = make(map[uintptr]*shadowLoc)
 	}
@@ -89,7 +92,12 @@ func access(p unsafe.Pointer, name string, write bool, atomic bool) {
 		name = loc.name + "(atomic access)"
 	}
 	me := epochRW{t.ID, t.vc.at(t.ID), atomic, t.tag}
-	if loc.hasW && loc.w.tid != t.ID && loc.w.clk > t.vc.at(loc.w.tid) && !(atomic && loc.w.atomic) {
+	// A thread that had ended before this one was created cannot have run concurrently with it
+	// in this execution, and its stack is free for reuse: an address of its stack may now
+	// belong to another object. Such a pair is not judged here - if the two accesses can
+	// overlap, they do in the execution where the creation comes first, and are judged there.
+	gone := func(tid int) bool { o := s.threads[tid]; return o.done && o.endedAt < t.bornAt }
+	if loc.hasW && loc.w.tid != t.ID && loc.w.clk > t.vc.at(loc.w.tid) && !(atomic && loc.w.atomic) && !gone(loc.w.tid) {
 		kind := "read"
 		if write {
 			kind = "write"
@@ -98,7 +106,7 @@ func access(p unsafe.Pointer, name string, write bool, atomic bool) {
 	}
 	if write {
 		for _, r := range loc.reads {
-			if r.tid != t.ID && r.clk > t.vc.at(r.tid) && !(atomic && r.atomic) {
+			if r.tid != t.ID && r.clk > t.vc.at(r.tid) && !(atomic && r.atomic) && !gone(r.tid) {
 				s.reportRace(name, s.threads[r.tid], "read", r.tag, t, "write")
 			}
 		}
